@@ -1,1 +1,1 @@
-pub mod tape; pub mod wire; pub mod model; pub mod iana; pub mod states;
+pub mod tape; pub mod wire; pub mod model; pub mod iana; pub mod states; pub mod ciphers;
